@@ -286,6 +286,7 @@ class C03(EvalProp):
             s = ('slice', r.choice(a), r.choice(a), r.choice(a[1:] + ['absent']))
             ln = r.randint(0, 5)
             cs.append(Case('b%d' % i, gens.render_path([('union', [s])]), [('a', [('n', float(k)) for k in range(ln)])]))
+        cs += bigint_filter_cases(r, max(40, n // 40), with_doc=True)
         return cs
 
     def project(self, o, c):
@@ -471,6 +472,22 @@ class C02(EvalProp):
             for k, (path, want) in enumerate(shapes):
                 if len(path) <= 256:
                     cases.append((Case('deep%d_%d' % (d, k), path, [], [], [], meta={'kind': 'deep-filter', 'depth': d}), want))
+        # long chains of one step kind (<= 256 characters): every step shares the nodes after it with the inner identifiers of
+        # a multi-name selector, so anything that walks the tree once per identifier is exponential in the chain length
+        for reps in sorted(set([12, 16, 20, 24, 28] + [r.randint(10, 28) for _ in range(3)])):
+            chains = [
+                (b'$' + b"['a','b']" * reps, 'ok'),
+                (b'$..' + b'[*,*]' * min(reps * 2, 50), 'ok'),
+                (b'$' + b"['a','b','c']" * (reps * 2 // 3), 'ok'),
+                (b'$[?(@' + b"['a','b']" * min(reps, 26) + b')]', 'ok'),
+                (b'$' + b'..a' * (reps * 2), 'ok'),
+                (b'$' + b'[0,1]' * (reps * 2), 'ok'),
+                (b'$' + b'[1:2]' * (reps * 2), 'ok'),
+                (b'$' + b'.*' * (reps * 4), 'ok'),
+            ]
+            for k, (path, want) in enumerate(chains):
+                if len(path) <= 256:
+                    cases.append((Case('chain%d_%d' % (reps, k), path, [], [], [], meta={'kind': 'long-chain', 'depth': reps}), want))
         outs = core.run_go([c for c, _ in cases], timeout_ms=4000)
         for (c, want), o in zip(cases, outs):
             res.evaluations += 1
@@ -480,8 +497,35 @@ class C02(EvalProp):
                 res.nontrivial.add(c.path)
             else:
                 res.violation('concrete', sig_of(c, 'parse-not-bounded'),
-                              'Parse of a %d-level nested filter (%d characters) -> %s, expected %s within 4 s'
-                              % (c.meta['depth'], len(c.path), p[:100], want), c, expected=want, observed=p)
+                              'Parse of a %d-level %s (%d characters) -> %s, expected %s within 4 s'
+                              % (c.meta['depth'], 'nested filter' if c.meta['kind'] == 'deep-filter' else 'chain of selectors', len(c.path), p[:100], want), c, expected=want, observed=p)
+
+
+def bigint_filter_cases(r, n, with_doc=False):
+    """filters whose number literal is written with digits only and lies at or beyond the int64 / uint64 limits (a literal is
+    a float for the library: every such text is a valid number), next to index and slice subscripts of the same size (which
+    must fit int64)"""
+    mags = [2 ** 63 - 1, 2 ** 63, 2 ** 63 + 1, 10 ** 19, 2 ** 64 - 1, 2 ** 64, 2 ** 64 + 1, 10 ** 20, 10 ** 30, 10 ** 308, 10 ** 309,
+            2 ** 53, 2 ** 53 + 1, 999999999999999999999]
+    out = []
+    for i in range(n):
+        m = r.choice(mags)
+        lit = r.choice(['', '', '-', '+']) + ('0' * r.choice([0, 0, 1, 2])) + str(m)
+        op = r.choice(['<', '<=', '>', '>=', '==', '!='])
+        other = r.choice(['@.a', '@', '$.a', '@.b.c'])
+        k = r.random()
+        if k < 0.4:
+            path = '$[?(%s %s %s)]' % (other, op, lit)
+        elif k < 0.8:
+            path = '$[?(%s %s %s)]' % (lit, op, other)
+        elif k < 0.9:
+            path = '$[%s]' % lit
+        else:
+            path = '$[%s:%s]' % (lit, r.choice(['', lit, '1']))
+        fm = float(m) if m < 10 ** 308 else 1e308
+        docs = [('a', [('o', [(b'a', ('n', fm))]), ('o', [(b'a', ('n', 1.0))]), ('n', fm), ('n', -fm)])] if with_doc else []
+        out.append(Case('big%d' % i, path.encode(), docs, meta={'family': 'bigint-literal', 'nsteps': 1}))
+    return out
 
 
 @register
@@ -506,6 +550,7 @@ class C17(EvalProp):
             if g.r.random() < 0.3:
                 c.mode = 'tree'
         cs += exhaustive_string_cases(1800 if ctx.quick else None)
+        cs += bigint_filter_cases(g.r, 150 if ctx.quick else 1500)
         return cs
 
     def project(self, o, c):
@@ -945,10 +990,17 @@ class C06(Prop):
             picks = r.sample(CONC_CORPUS, r.randint(2, 5))
             ops = [{'op': 'parse', 'path_hex': hx(p), 'filters': f, 'aggs': a, 'acc': False} for p, f, a in picks]
             ops.append({'op': 'doc', 'doc': core.doc_go(('a', [('o', [(b'a', ('n', 1.0)), (b'b', ('s', b'x'))]), ('n', 3.0)]))})
+            if i % 2 == 0:
+                # subscripts whose index lists grow with the array (wildcard and open slices inside a union), first met by
+                # several goroutines at once on arrays longer than anything the process has seen
+                for p in r.sample([b'$[*,0]', b'$[0,*]', b'$[*,*]', b'$[1:2,*]', b'$[0:,0]', b'$[::2,1]', b'$[::-1,0]', b'$..[*,0]'], 3):
+                    ops.insert(0, {'op': 'parse', 'path_hex': hx(p), 'filters': [], 'aggs': [], 'acc': False})
+                for ln in r.sample([700, 1500, 3000, 5000], 2):
+                    ops.append({'op': 'doc', 'doc': core.doc_go(('a', [('n', float(k)) for k in range(ln)]))})
             threads = r.choice([2, 4, 8, 16])
             cid = 'cold%d' % i
             raws.append(RawCase(cid, json.dumps({'id': cid, 'mode': 'cold', 'ops': ops, 'threads': threads}),
-                                meta={'threads': threads, 'cold': True, 'paths': [p.decode() for p, _, _ in picks]}))
+                                meta={'threads': threads, 'cold': True, 'paths': [unhx(o['path_hex']).decode('utf-8', 'replace') for o in ops if o['op'] == 'parse']}))
         env_runner = core.RUNNER_RACE
         os.environ['GORACE'] = 'halt_on_error=1'
         gos = core.run_go(raws, jobs=4, timeout_ms=120000, runner=env_runner)
@@ -1378,6 +1430,24 @@ class C09(Prop):
             else:
                 B = r.choice(es)
                 fams.append((doc, 'andor', {'A': e, 'B': B, 'and': b'(' + e + b') && (' + B + b')', 'or': b'(' + e + b') || (' + B + b')'}))
+        # A && B where B is a path-to-path == / != whose `$` path is absent: B is not judged member by member (it answers for
+        # the whole list), so evaluating it only on the members A kept changes the answer
+        for i in range(max(40, n // 60)):
+            cut = r.randint(0, 3)
+            ms = []
+            for j in range(r.randint(2, 6)):
+                m = [(b'a', ('n', float(j))), (b'u', ('n', float(100 + j)))]
+                if (j <= cut and r.random() < 0.8) or r.random() < 0.15:
+                    m.append((b'x', ('n', float(5 + j))))
+                r.shuffle(m)
+                ms.append(('o', m))
+            body = ('a', ms) if r.random() < 0.7 else ('o', list(zip(r.sample(gens.KEY_POOL, len(ms)), ms)))
+            doc = ('o', [(b'list', body), (b'present', ('n', 5.0))])
+            A = r.choice([b'@.a > %d' % cut, b'@.a >= %d' % (cut + 1), b'%d < @.a' % cut, b'!@.x', b'@.a > %d || @.zz' % cut])
+            ref = r.choice([b'$.missing', b'$.missing', b'$.present', b'$.list.nope'])
+            op = r.choice([b'==', b'!='])
+            B = (b'@.x ' + op + b' ' + ref) if r.random() < 0.5 else (ref + b' ' + op + b' @.x')
+            fams.append((doc, 'andor', {'A': A, 'B': B, 'and': b'(' + A + b') && (' + B + b')', 'or': b'(' + A + b') || (' + B + b')'}))
         cases, index = [], []
         for fi, (doc, kind, exprs) in enumerate(fams):
             doc2 = reroll_refs(r, doc)          # a second document for the SAME parsed function
@@ -1501,7 +1571,7 @@ class C10(Prop):
                     lit = ('n', r.choice(gens.NUM_POOL[:10]))
                 operand = b'@' + gens.render_step(('name', key, 'sq'), sp)
                 if op == '=~':
-                    text = operand + b' =~ /' + r.choice([b'^a', b'b$', b'.', b'x', b'^$', b'1']) + b'/'
+                    text = operand + b' =~ /' + r.choice([b'^a', b'b$', b'.', b'x', b'^$', b'1', b'^ab$', b'^a$', b'^bc$', b'^x$', b'^10$', b'^1$']) + b'/'
                     lit = ('s', b'')
                 elif r.random() < 0.5:
                     text = operand + b' ' + op.encode() + b' ' + gens.render_literal(lit, sp)
@@ -1519,6 +1589,19 @@ class C10(Prop):
         for i in range(n // 2):
             doc, es = gens.refs_family(g, False)
             cases.append(Case('r%d' % i, b'$.list[?(' + r.choice(es) + b')]', [doc, to_jnum(doc)]))
+            meta.append((None, []))
+        # regular expressions are matched by the regexp package on strings only: literal patterns, anchored or not, against
+        # strings that equal, contain, start or end with the literal, and against non-strings spelled like it
+        for i in range(max(60, n // 40)):
+            lit = r.choice([b'ab', b'a', b'x', b'10', b'bc', b'1'])
+            pat = r.choice([b'^' + lit + b'$', b'^' + lit + b'$', b'^' + lit, lit + b'$', lit, b'^(' + lit + b')$'])
+            vals = [('s', lit), ('s', b'c' + lit), ('s', lit + b'c'), ('s', b'x' + lit + b'x'), ('s', lit + lit), ('s', b''), ('z',), ('b', True)]
+            if lit.isdigit():
+                vals += [('n', float(lit)), ('n', float(lit) * 10 + 1)]
+            r.shuffle(vals)
+            ms = [('o', [(b'k', v), (b'u', ('n', float(j)))]) for j, v in enumerate(vals[:r.randint(3, 8)])]
+            doc = ('o', [(b'list', ('a', ms) if r.random() < 0.6 else ('o', list(zip(r.sample(gens.KEY_POOL, len(ms)), ms))))])
+            cases.append(Case('x%d' % i, b'$.list[?(@.k =~ /' + pat + b'/)]', [doc, to_jnum(doc)]))
             meta.append((None, []))
         go, mo = both_sides(cases)
         for c, g_, m, mt in zip(cases, go, mo, meta):
@@ -2005,39 +2088,45 @@ class C16(Prop):
             key = gen_key(r)
             kb = key.encode('utf-8')
             sibs = [s for s in near_misses(r, key)]
-            members = [(kb, ('n', 1.0))] + [(s.encode('utf-8'), ('n', float(j + 2))) for j, s in enumerate(sibs)]
+            pos = r.randint(0, 4)
+            # the member's value: usually 1, sometimes null / false / "" / an empty container (a member holding null is still a
+            # member); the filter position compares with == 1 and keeps the number
+            tv = ('n', 1.0) if (pos == 3 or r.random() < 0.6) else r.choice([('z',), ('b', False), ('s', b''), ('a', []), ('o', []), ('z',)])
+            tvr = core.doc_render(tv)
+            members = [(kb, tv)] + [(s.encode('utf-8'), ('n', float(j + 2))) for j, s in enumerate(sibs)]
             r.shuffle(members)
             obj = ('o', members)
             spell = [b"['" + gens.esc_json(kb, "'") + b"']", b'["' + gens.esc_json(kb, '"') + b'"]']
             dot = gens.esc_dot(kb)
             if dot is not None and not any(ord(ch) < 0x20 or ch == '\x7f' for ch in key):
                 spell.append(b'.' + dot)
-            pos = r.randint(0, 4)
             for j, sp in enumerate(spell):
                 cid = 'k%d_%d' % (i, j)
                 if pos == 0:
                     c = Case(cid, b'$' + sp, [obj])
-                    w = 'ok:[n(1,0)]'
+                    w = 'ok:[%s]' % tvr
                 elif pos == 1:
                     c = Case(cid, b'$.w' + sp, [('o', [(b'w', obj)])])
-                    w = 'ok:[n(1,0)]'
+                    w = 'ok:[%s]' % tvr
                 elif pos == 2:
                     dotless = sp[1:] if sp.startswith(b'.') else sp
                     shape = i % 4
                     holder = [('a', [obj]), ('a', [('a', [obj])]), ('o', [(b'rows', ('a', [('a', [obj]), ('a', [('s', b'x')])]))]),
                               ('a', [('a', [('a', [obj])])])][shape]
+                    if tv[0] in 'ao' and tv[0] == 'o':
+                        pass
                     c = Case(cid, b'$..' + dotless, [holder])
-                    w = 'ok:[n(1,0)]'
+                    w = 'ok:[%s]' % tvr
                 elif pos == 3:
                     c = Case(cid, b'$[?(@' + sp + b' == 1)]', [('a', [obj, ('o', [(b'zz', ('n', 1.0))])])])
                     w = 'ok:[%s]' % core.doc_render(obj)
                 else:
                     if sp.startswith(b'.'):
                         c = Case(cid, b'$' + sp, [obj])
-                        w = 'ok:[n(1,0)]'
+                        w = 'ok:[%s]' % tvr
                     else:
                         c = Case(cid, b"$['zz'," + sp[1:-1] + b']', [('o', members + [(b'zz', ('n', 99.0))])]) if b'zz' != kb else Case(cid, b'$' + sp, [obj])
-                        w = 'ok:[n(99,0),n(1,0)]' if b'zz' != kb else 'ok:[n(1,0)]'
+                        w = ('ok:[n(99,0),%s]' % tvr) if b'zz' != kb else 'ok:[%s]' % tvr
                 # an earlier Parse whose filter literal has the same raw text (a shared unescape cache would confuse them)
                 raw = sp[1:-1] if not sp.startswith(b'.') else None
                 if raw is not None and raw[:1] in (b"'", b'"') and len(raw) >= 2:
@@ -2370,6 +2459,25 @@ class C19(Prop):
                 if path in FAILING_PATHS:
                     failed_before = True
             hists.append((ops, interesting))
+        # several Configs handed to one call (only the first is documented to count), then the FIRST Config object used again
+        # alone: functions of the later Configs must not have leaked into it, whether the first call succeeded or failed
+        for i in range(max(30, n // 15)):
+            fa = r.sample(gens.FILTER_FUNCS, r.randint(1, 3))
+            fb = [f for f in gens.FILTER_FUNCS if f not in fa][:r.randint(1, 3)]
+            aa = r.sample(gens.AGG_FUNCS, r.randint(0, 2))
+            ab = [a for a in gens.AGG_FUNCS if a not in aa][:r.randint(1, 2)]
+            cfga = {'filters': fa, 'aggs': aa, 'acc': False, 'nocfg': False}
+            p0 = r.choice([b'$.a.' + fa[0].encode() + b'()', b'$.a.' + fa[0].encode() + b'().unknown()', b'$.a.' + fb[0].encode() + b'()',
+                           b'$.b.' + ab[0].encode() + b'()', b'$.a', r.choice(FAILING_PATHS)])
+            ops = [(dict(op='retrieve', path_hex=hx(p0), doc=core.doc_go(doc), mutate=False, filters2=fb, aggs2=ab, **cfga), doc)]
+            for _ in range(r.randint(0, 2)):
+                ops.append((dict(op='retrieve', path_hex=hx(r.choice(LEAK_PROBES)[0]), doc=core.doc_go(doc), mutate=False,
+                                 filters=[], aggs=[], acc=False, nocfg=True), doc))
+            for _ in range(r.randint(1, 3)):
+                probe = r.choice([b'$.a.' + r.choice(fb).encode() + b'()', b'$.b.' + r.choice(ab).encode() + b'()',
+                                  b'$.a.' + fa[0].encode() + b'()', b'$.b[?(@.' + r.choice(fb).encode() + b'() > 0)]'])
+                ops.append((dict(op='retrieve', path_hex=hx(probe), doc=core.doc_go(doc), mutate=False, cfg_ref=1, **cfga), doc))
+            hists.append((ops, True))
         # cold starts: the history runs in a brand-new process, so its first call is the first the library ever sees
         # (lazily initialised package state, the generated parser's own buffers): the empty path, paths that begin
         # with an escape, a bare name, ... then ordinary calls
@@ -2397,7 +2505,7 @@ class C19(Prop):
                 key = json.dumps([op['path_hex'], op['filters'], op['aggs'], op['acc'], op['nocfg'], core.doc_render(d)])
                 if key not in uniq:
                     cid = 'u%d' % len(uniq)
-                    op1 = dict(op, mutate=False)
+                    op1 = dict(op, mutate=False, cfg_ref=0)
                     uniq[key] = (RawCase(cid, hist_json(cid, [op1])),
                                  Case(cid, unhx(op['path_hex']), [d], op['filters'], op['aggs'], op['acc'], op['nocfg']))
         gos = core.run_go(raws)
@@ -2450,7 +2558,7 @@ class C19(Prop):
         g_ = core.run_go([RawCase('r', hist_json('r', ops))])[0]
         print('history :', g_)
         for k, op in enumerate(ops):
-            a = core.run_go([RawCase('a', hist_json('a', [dict(op, mutate=False)]))])[0]
+            a = core.run_go([RawCase('a', hist_json('a', [dict(op, mutate=False, cfg_ref=0)]))])[0]
             if a.get('O0') != g_.get('O%d' % k):
                 print('call %d alone: %s' % (k, a.get('O0')))
                 res.violation('concrete', 'replay', 'call %d differs from the same call alone' % k, v['case'])
